@@ -48,7 +48,10 @@ func runModeSwitch(r *Run, prop string) *Violation {
 	ids := []string{ps.runID}
 	slots := []uint16{0}
 	// the tool pins the namespace to its mode when it creates it, before anything is replayed: the marker is there
-	withMarker := true
+	// a namespace written by an older release carries no mode field and the tool infers it from what it finds: drawn for
+	// the sync format only, whose per-slot latest records identify it; a pipeline/parallel namespace that has not
+	// flushed a frontier yet cannot be told from an empty one (the inference answers "unknown", by design)
+	withMarker := !(from == "sync" && g.Choose("legacyns", 3) == 0)
 	if _, err := c.runOp("plant index", func(ctx context.Context) error {
 		cli, e := client.NewRedis(targetRedisCfg())
 		if e != nil {
